@@ -91,7 +91,7 @@ def run_reads(kind, reads, close):
         pump()
     if close:
         p.close()
-        pump()
+        pump(); pump()        # a closure test that sits behind a yield is reached by the second step
     return {"msgs": msgs, "err": err, "errtext": errtext, "left": h(p.msg)}
 
 
